@@ -190,15 +190,30 @@ def _sweep_chunk(ab):
 
 
 def serial_edits(ctx):
-    files = pdbgen.test_files(["1FTJ-Chain-A", "3SGB-subset", "conf-alt-AB"] if ctx.quick() else None)
+    files = list(pdbgen.test_files(["1FTJ-Chain-A", "3SGB-subset", "conf-alt-AB"] if ctx.quick() else None))
+    # three conformations, one of which has to be completed with atoms that exist in both others: which copy is taken must not
+    # depend on the serial numbers
+    from . import c08
+    for i in range(2 if ctx.quick() else 10):
+        for _ in range(30):
+            frag = pdbgen.relabel(pdbgen.fragment(ctx.rng, nres=ctx.rng.randint(4, 9)), chain="A")
+            alt = c08.altloc_variant(ctx.rng, frag, 5)
+            if any(l[16:17] == "C" for l in alt):
+                files.append(("three-conformations-%d" % i, pdbgen.text(alt)))
+                break
     nbad = 0
     for name, text in files:
         base = observe.run(text, want_text=True)
-        for variant in range(2 if ctx.quick() else 5):
+        natoms = sum(1 for line in text.split("\n") if line[:6] in ("ATOM  ", "HETATM"))
+        for variant in range(3 if ctx.quick() else 6):
             lines = []
+            k = 0
             for line in text.split("\n"):
                 if line[:6] in ("ATOM  ", "HETATM") and len(line) > 11:
+                    k += 1
                     v = ctx.rng.choice([ctx.rng.randint(0, 99999), ctx.rng.randint(100000, 87440031), ctx.rng.randint(-9999, -1), 0])
+                    if variant == 2:
+                        v = natoms - k + 1          # descending: the reverse of the file order
                     line = line[:6] + ref_encode(5, v).rjust(5) + line[11:]
                 lines.append(line)
             ed = observe.run("\n".join(lines), want_text=True)
